@@ -14,7 +14,11 @@ Definition anchors_statement : Prop :=
   /\ anchor_identkeywords = map (fun p => (fst p, identkw_name (snd p))) identkw_table
   /\ anchor_limit_def_keywords = map identkw_name limit_def_keywords
   /\ anchor_limit_reset_guarded = true
-  /\ anchor_limit_shorthand_period = true.
+  /\ anchor_limit_shorthand_period = true
+  (* the source has the repairs Lex.read_rune / Lex.bstring_loop / Print.print_block_string follow *)
+  /\ anchor_lexer_nul_not_consumed = true
+  /\ anchor_lexer_block_quotes_are_content = true
+  /\ anchor_print_block_newline_after_quote = true.
 Lemma anchors_ok : anchors_statement.
 Proof. unfold anchors_statement. repeat split; reflexivity. Qed.
 
